@@ -25,6 +25,13 @@ pub struct KCfg {
     pub shared_sub: bool,
     /// a subscriber of one store dispatches into the other store from the reducer context
     pub cross_dispatch: Option<u8>,
+    /// the first-stopped store has this many effects parked at a closed gate while the other store's
+    /// effect must still run (0 = off)
+    pub flood: u32,
+    /// the parked effect stays parked across stop(x): that stop() runs into its timeout
+    pub stop_times_out: bool,
+    /// stop(x) is called from a task running on the other store's pool
+    pub stop_from_pool: bool,
     pub scripts: Vec<Script>,
     pub perturb: u8,
 }
@@ -51,15 +58,26 @@ pub fn gen(rng: &mut Rng, tiny: bool) -> KCfg {
     let mx = if tiny { 3 } else { 25 };
     let per = vec![rng.range(1, mx) as usize, rng.range(1, mx) as usize];
     let np = vec![if tiny { 1 } else { rng.range(1, 3) as usize }, if tiny { 1 } else { rng.range(1, 3) as usize }];
+    // script 8: Task effect parked at gate 0
+    let mut fl = Script::plain();
+    fl.eff[0] = Some(EffSpec { kind: EK_TASK, follow_script: 0, n_follow: 0, panic: false, gate: 0 });
+    scripts.push(fl);
     let first_stop = rng.below(2) as u8;
     let total_other = (np[1 - first_stop as usize] * per[1 - first_stop as usize]) as u64;
+    let stop_times_out = if cfg!(miri) { rng.chance(1, 3) } else { !tiny && rng.chance(1, 1500) };
+    let how = *rng.pick(&[STOP_STOP, STOP_DROP, STOP_TRAIT]);
+    let survivor_blocks = [&a, &b][1 - first_stop as usize].policy == POL_BLOCK;
+    let stop_times_out = stop_times_out && survivor_blocks;
     KCfg {
+        flood: if !survivor_blocks { 0 } else if stop_times_out { 1 } else if !tiny && rng.chance(1, 8) { 80 } else { 0 },
+        stop_times_out,
+        stop_from_pool: how == STOP_STOP && rng.chance(1, 4),
         stores: vec![a, b],
         n_prod: np,
         per_prod: per,
         cross_thread: rng.chance(1, 2),
         first_stop,
-        how: *rng.pick(&[STOP_STOP, STOP_DROP, STOP_TRAIT]),
+        how,
         stop_after: rng.below(total_other.max(1)),
         post_actions: rng.range(1, 4) as usize,
         shared_sub: rng.chance(2, 3),
@@ -80,12 +98,15 @@ pub fn describe(c: &KCfg) -> J {
         ("stop_after_other_returns", J::U(c.stop_after)),
         ("post_actions_on_survivor", J::U(c.post_actions as u64)),
         ("shared_subscriber", J::B(c.shared_sub)),
+        ("effects_of_first_stopped_store_parked", J::U(c.flood as u64)),
+        ("first_stop_runs_into_timeout", J::B(c.stop_times_out)),
+        ("stop_called_from_other_stores_pool", J::B(c.stop_from_pool)),
         ("subscriber_of_store_dispatching_into_the_other", c.cross_dispatch.map(|s| J::U(s as u64)).unwrap_or(J::Null)),
     ])
 }
 
 pub fn execute(c: &KCfg, seed: u64) -> W {
-    let ctx = Ctx::new(ScriptSrc::Table(c.scripts.clone()), 1, seed, c.perturb, false);
+    let ctx = Ctx::new(ScriptSrc::Table(c.scripts.clone()), 2, seed, c.perturb, false);
     let w = W::new(ctx, c.stores.clone());
     let mut keep = Vec::new();
     for s in 0..2u8 {
@@ -116,7 +137,8 @@ pub fn execute(c: &KCfg, seed: u64) -> W {
     let y = 1 - x;
     let droppable = if c.how == STOP_DROP { Some(DroppableStore::new(w.stores[x as usize].clone())) } else { None };
     let returned_y = Counter::new();
-    let n_scripts = c.scripts.len() as u64;
+    let n_scripts = c.scripts.len() as u64 - 1;
+    let flood_script = c.scripts.len() as u32 - 1;
     std::thread::scope(|sc| {
         let mut hs = Vec::new();
         for s in 0..2u8 {
@@ -151,14 +173,51 @@ pub fn execute(c: &KCfg, seed: u64) -> W {
         // stop / drop store x while y is busy
         returned_y.wait_at_least(c.stop_after.min((c.n_prod[y as usize] * c.per_prod[y as usize]) as u64), 30);
         w.ctx.perturb();
+        if c.flood > 0 {
+            // effects of x park at a closed gate (more of them than any shared pool could run at once);
+            // an effect of y must still run
+            for k in 0..c.flood {
+                w.dispatch(x, EP_INHERENT, Act { id: act_id(x, 34, k + 1), script: flood_script });
+            }
+            let probe = act_id(y, 35, 1);
+            w.dispatch(y, EP_INHERENT, Act { id: probe, script: 1 });
+            let ok = crate::fam_a::wait_until(|| {
+                let bufs = w.ctx.log.bufs.lock().unwrap();
+                bufs.iter().any(|(_, b)| b.lock().unwrap().iter().any(|e| e.k == K::EBeg && e.a == probe))
+            });
+            if !ok && c.stores[y as usize].policy == POL_BLOCK {
+                w.mark(900, 1);
+                w.ctx.gates[1].wait();
+            }
+            w.mark(7, 0);
+            if !c.stop_times_out {
+                w.ctx.gates[0].open();
+            }
+        }
         match droppable {
             Some(d) => {
                 w.drop_droppable(x, d);
+            }
+            None if c.stop_from_pool => {
+                // stop(x) from a task on y's pool
+                let cx = w.ctx.clone();
+                let stx = w.stores[x as usize].clone();
+                let done = Arc::new(Counter::new());
+                let d2 = done.clone();
+                rs_store::Dispatcher::dispatch_task(&w.stores[y as usize], Box::new(move || {
+                    cx.ev(K::StopInv, x, 0, STOP_STOP, 0, 0, 0);
+                    let t0 = std::time::Instant::now();
+                    rs_store::StoreImpl::stop(&stx);
+                    cx.ev(K::StopRet, x, 0, STOP_STOP, 0, t0.elapsed().as_millis() as u64, 0);
+                    d2.add(1);
+                }));
+                done.wait_at_least(1, 60);
             }
             None => {
                 w.stop(x, c.how);
             }
         }
+        w.ctx.gates[0].open();
         // the survivor accepts and processes actions dispatched entirely after stop(x) returned
         for k in 0..c.post_actions {
             w.dispatch(y, EP_INHERENT, Act { id: act_id(y, 31, k as u32 + 1), script: 0 });
@@ -196,13 +255,20 @@ pub fn execute(c: &KCfg, seed: u64) -> W {
 
 pub fn c19(h: &Hist, w: &W, c: &KCfg, v: &mut Verdicts) {
     v.evaluated.insert("C19");
-    if stop_timed_out(h, 0) || stop_timed_out(h, 1) {
-        v.inconcl("C19", "a stop() hit its timeout".into());
+    if h.evs.iter().any(|e| e.k == K::Mark && e.idx == 900) {
+        v.inconcl("C19", "controller gave up waiting".into());
         return;
     }
-    // per-store oracles, relabelled
+    if stop_timed_out(h, 0) && stop_timed_out(h, 1) {
+        v.inconcl("C19", "both stop() calls hit their timeout".into());
+        return;
+    }
+    // per-store oracles, relabelled (a store whose own stop() timed out is not judged)
     let mut sub = Verdicts::default();
     for s in 0..2u8 {
+        if stop_timed_out(h, s) {
+            continue;
+        }
         c01(h, s, &mut sub);
         c03(h, s, &mut sub);
         c04(h, s, &mut sub, "C04");
